@@ -109,6 +109,11 @@ def main():
                 f"observed={json.dumps(v.get('observed'))[:300]} note={v.get('note','')[:200]}"
             )
             out_lines.append(f"VIOLATION property={prop} replay={path}")
+        nd = res.extra.get("oracle_disagreements", 0)
+        if nd:
+            out_lines.append(f"note: {nd} case(s) dropped because reference model and real tool disagree (see evidence)")
+            if nd > 20 and nd > 0.01 * max(1, res.evaluations):
+                raise core.HarnessError(f"{nd} model/tool disagreements: the oracle of this check cannot be trusted")
         wall = time.time() - t0
         core.write_evidence(
             prop, args.tier, seed, res, mod.RULE, mod.ASSUMPTIONS, wall, nviol,
